@@ -27,7 +27,7 @@ import time
 
 from .. import aldyenv, gen_db, tlc
 from ..core import MachineryError
-from .c16 import COMP, DbView, MC_ORIGIN, _load_gene, _project_solution, kind_of, mc_db
+from .c16 import DbView, MC_ORIGIN, _load_gene, _project_solution, kind_of, mc_db
 
 PROP = "X01"
 BASES = "ACGT"
@@ -474,99 +474,39 @@ def run(ctx):
                 fmc = tp.submit(ctx.mc, "mc/MC_PscanInput", "mc/MC_PscanInput_quick.cfg", workers=4, label="MC_PscanInput(quick: U2 tables + plans)")
             else:
                 fmc = tp.submit(ctx.mc, "mc/MC_PscanInput", "mc/MC_PscanInput.cfg", workers=8, label="MC_PscanInput(full)", timeout=3600)
-            rgen = fgen.result()
-            fmc.result()
-        _run_bindings(ctx, rng, quick, pool, out, rgen)
+
+            def spec_level():
+                fmc.result()
+                # the spec must reject a loop that sets a site's reference support from the row at hand only
+                rh = ctx.mc("mc/MC_PscanInput", "mc/MC_PscanInput_hazard.cfg", workers=2, expect_ok=False, label="MC_PscanInput(hazard: reference not cumulative)")
+                if rh.violated != "ReferenceReduced":
+                    raise MachineryError(f"hazard configuration MC_PscanInput_hazard.cfg: expected a ReferenceReduced counterexample, got {rh.violated}")
+                ctx.parts["spec_hazard"] = {"cfg": "MC_PscanInput_hazard.cfg", "violated": rh.violated}
+
+            try:
+                _run_bindings(ctx, rng, quick, pool, out, fgen, spec_level)
+            finally:
+                for f in (fgen, fmc):
+                    try:
+                        f.result()
+                    except Exception:
+                        pass
     finally:
         pool.terminate()
         pool.join()
 
 
-def _run_bindings(ctx, rng, quick, pool, out, rgen):
+def _run_bindings(ctx, rng, quick, pool, out, fgen, spec_level):
     aldyenv.setup()
     from .. import genes as genes_mod
 
     scratch = tlc.scratch()
     t0 = time.time()
     meta, jobs_by_id, events = {}, {}, {}
-    jid = 0
-    # =============================================================== (A)
-    lines = tlc.read_ndjson(out)
-    gline, tables = lines[0], lines[1:]
-    got = [p for p in rgen.prints if p[1] == "TABLES"]
-    if not got or got[0][2] != len(tables):
-        raise MachineryError("PscanInputGen emission mismatch")
-    srcs, views = {}, {}
-    c16_gline = {"window": gline["window"], "alleles": gline["alleles"]}
-    for strand in "+-":
-        p = os.path.join(scratch, f"xmcg_{'p' if strand == '+' else 'm'}.yml")
-        db = mc_db(c16_gline, strand)
-        gen_db.realise(db, p)
-        srcs[strand] = {"kind": "yml", "path": p, "genome": "hg19"}
-        views[strand] = DbView(db, "hg19")
-        g, _ = _load_gene(srcs[strand])
-        want = sorted([MC_ORIGIN + s, op] for s, op in gline["cat"])
-        if sorted([p_, op] for p_, op in g.mutations) != want or g[MC_ORIGIN:MC_ORIGIN + 8] != "".join(gline["window"]):
-            raise MachineryError(f"realised MC gene ({strand}) does not match the spec's gene: {sorted(g.mutations)} vs {want}")
-        if spans_of(views[strand], MC_ORIGIN) != gline["spans"] or str(g.chr) != gline["chr"]:
-            raise MachineryError(f"realised MC gene ({strand}): spans {spans_of(views[strand], MC_ORIGIN)} / chr {g.chr} differ from the spec's")
-    mc_alleles = [{"name": a["name"], "vs": a["vs"]} for a in gline["alleles"]]
-    vs_of = {a["name"]: a["vs"] for a in gline["alleles"]}
-    jobs = []
-    ncall = {"11": 0}
-    for f in tables:
-        rows = f["rows"]
-        multi = f["kind"] in ("pair", "plan")
-        both = f["id"] % 5 == 0 or f["kind"] == "plan" or (not quick and f["kind"] == "pair")
-        for strand in ("+-" if both else "+-"[(f["id"] + ctx.seed) % 2]):
-            jid += 1
-            planted = None
-            if f["pair"]:
-                a, b = f["pair"]
-                if (a, b) != ("1", "1"):
-                    want = f["kind"] != "single" or not quick or rng.random() < 0.25
-                else:
-                    ncall["11"] += 1
-                    want = ncall["11"] % (300 if quick else 40) == 1
-                if want:
-                    planted = {"names": [a, b], "vs": sorted(vs_of[a] + vs_of[b])}
-            view = views[strand]
-            span = set()
-            for r in rows:
-                span.update(p for p in range(r["pos"] + MC_ORIGIN - 1, r["pos"] + MC_ORIGIN + len(r["ref"]) + 2) if p in view.c2r)
-            orders = [list(range(len(rows)))] + ([list(reversed(range(len(rows))))] if multi else [])
-            j = dict(id=jid, src=srcs[strand], origin=MC_ORIGIN, dir=scratch, frows=[frow_of(r, MC_ORIGIN) for r in rows], orders=orders,
-                     span=sorted(span), watch=[[s, op] for s, op in gline["cat"]], planted=planted)
-            jobs.append(j)
-            jobs_by_id[jid] = j
-            meta[jid] = dict(binding="A", strand=strand, table=f["id"], kind=f["kind"], rows=rows, gene="MCG", gline=True)
-    for res in pool.imap_unordered(run_table, jobs, chunksize=16):
-        events[res["id"]] = res
-    _dbg("A executed", len(jobs), round(time.time() - t0, 1))
-    chunks_rows = {"+": [], "-": []}
-    for j in jobs:
-        res, m = events[j["id"]], meta[j["id"]]
-        ev = {"k": "table", "id": j["id"], "rows": m["rows"], "segs": segs_of(m["rows"], views[m["strand"]], MC_ORIGIN),
-              "obs": res["obs"], "call": res["call"]}
-        events[j["id"]] = ev
-        chunks_rows[m["strand"]].append(ev)
-        ctx.traces += len(ev["obs"]) + len(ev["call"])
-        nontrivial = any(o["cov"] and any(c["cov"] for c in o["cov"]) or any(len(s["ops"]) != 1 for s in o["sites"]) for o in ev["obs"])
-        ctx.count(1, key=("A", m["strand"], json.dumps(j["frows"], sort_keys=True)), nontrivial=nontrivial)
-    ctx.parts["A"] = {"tables_from_tlc": len(tables), "executions": sum(len(j["orders"]) for j in jobs), "with_genotype": sum(1 for j in jobs if j["planted"]),
-                      "wall_s": round(time.time() - t0, 1)}
-    sj = next(j for j in jobs if meta[j["id"]]["kind"] == "plan" and j["planted"] and j["planted"]["names"] == ["2", "4"])
-    ctx.sample({"binding": "A", "table": sj["frows"], "planted": sj["planted"], "observed": {"obs": events[sj["id"]]["obs"][:1], "call": events[sj["id"]]["call"]}})
-    gene_rows = {st: gene_event(srcs[st], MC_ORIGIN, views[st], mc_alleles) for st in "+-"}
-    CH = 4000
-    chunks = []
-    for st in "+-":
-        evs_ = chunks_rows[st]
-        for i in range(0, len(evs_), CH):
-            chunks.append([gene_rows[st]] + evs_[i:i + CH])
-
+    chunks = []  # self-contained row lists (gene event first), validated by parallel TLC runs
     # =============================================================== (B)
     t1 = time.time()
+    jid = 10 ** 6  # (A) uses 1.., (B) 1,000,001.., the combined tables 1,500,001.., canaries 10,000,001..
     pdir = os.path.join(genes_mod.genes_dir(), "pharmacoscan")
     names = sorted(fn[:-4] for fn in os.listdir(pdir) if fn.endswith(".yml"))
     if quick:
@@ -700,6 +640,84 @@ def _run_bindings(ctx, rng, quick, pool, out, rgen):
     multi_rows = _multi_gene(ctx, rng, quick, pool, tinfo, scratch, meta, jobs_by_id, events, chunks, gene_rows_b, jid)
     ctx.parts["B"]["multi_gene"] = dict(multi_rows, wall_s=round(time.time() - t2, 1))
 
+    # =============================================================== (A)
+    spec_level()
+    rgen = fgen.result()  # the generator and the model checker ran while (B) executed
+    t0 = time.time()
+    lines = tlc.read_ndjson(out)
+    gline, tables = lines[0], lines[1:]
+    got = [p for p in rgen.prints if p[1] == "TABLES"]
+    if not got or got[0][2] != len(tables):
+        raise MachineryError("PscanInputGen emission mismatch")
+    srcs, views = {}, {}
+    c16_gline = {"window": gline["window"], "alleles": gline["alleles"]}
+    for strand in "+-":
+        p = os.path.join(scratch, f"xmcg_{'p' if strand == '+' else 'm'}.yml")
+        db = mc_db(c16_gline, strand)
+        gen_db.realise(db, p)
+        srcs[strand] = {"kind": "yml", "path": p, "genome": "hg19"}
+        views[strand] = DbView(db, "hg19")
+        g, _ = _load_gene(srcs[strand])
+        want = sorted([MC_ORIGIN + s, op] for s, op in gline["cat"])
+        if sorted([p_, op] for p_, op in g.mutations) != want or g[MC_ORIGIN:MC_ORIGIN + 8] != "".join(gline["window"]):
+            raise MachineryError(f"realised MC gene ({strand}) does not match the spec's gene: {sorted(g.mutations)} vs {want}")
+        if spans_of(views[strand], MC_ORIGIN) != gline["spans"] or str(g.chr) != gline["chr"]:
+            raise MachineryError(f"realised MC gene ({strand}): spans {spans_of(views[strand], MC_ORIGIN)} / chr {g.chr} differ from the spec's")
+    mc_alleles = [{"name": a["name"], "vs": a["vs"]} for a in gline["alleles"]]
+    vs_of = {a["name"]: a["vs"] for a in gline["alleles"]}
+    jobs = []
+    jid = 0
+    ncall = {"11": 0}
+    for f in tables:
+        rows = f["rows"]
+        multi = f["kind"] in ("pair", "plan")
+        both = f["id"] % 5 == 0 or f["kind"] == "plan" or (not quick and f["kind"] == "pair")
+        for strand in ("+-" if both else "+-"[(f["id"] + ctx.seed) % 2]):
+            jid += 1
+            planted = None
+            if f["pair"]:
+                a, b = f["pair"]
+                if (a, b) != ("1", "1"):
+                    want = f["kind"] != "single" or not quick or rng.random() < 0.25
+                else:
+                    ncall["11"] += 1
+                    want = ncall["11"] % (300 if quick else 40) == 1
+                if want:
+                    planted = {"names": [a, b], "vs": sorted(vs_of[a] + vs_of[b])}
+            view = views[strand]
+            span = set()
+            for r in rows:
+                span.update(p for p in range(r["pos"] + MC_ORIGIN - 1, r["pos"] + MC_ORIGIN + len(r["ref"]) + 2) if p in view.c2r)
+            orders = [list(range(len(rows)))] + ([list(reversed(range(len(rows))))] if multi else [])
+            j = dict(id=jid, src=srcs[strand], origin=MC_ORIGIN, dir=scratch, frows=[frow_of(r, MC_ORIGIN) for r in rows], orders=orders,
+                     span=sorted(span), watch=[[s, op] for s, op in gline["cat"]], planted=planted)
+            jobs.append(j)
+            jobs_by_id[jid] = j
+            meta[jid] = dict(binding="A", strand=strand, table=f["id"], kind=f["kind"], rows=rows, gene="MCG", gline=True)
+    for res in pool.imap_unordered(run_table, jobs, chunksize=16):
+        events[res["id"]] = res
+    _dbg("A executed", len(jobs), round(time.time() - t0, 1))
+    chunks_rows = {"+": [], "-": []}
+    for j in jobs:
+        res, m = events[j["id"]], meta[j["id"]]
+        ev = {"k": "table", "id": j["id"], "rows": m["rows"], "segs": segs_of(m["rows"], views[m["strand"]], MC_ORIGIN),
+              "obs": res["obs"], "call": res["call"]}
+        events[j["id"]] = ev
+        chunks_rows[m["strand"]].append(ev)
+        ctx.traces += len(ev["obs"]) + len(ev["call"])
+        nontrivial = any(o["cov"] and any(c["cov"] for c in o["cov"]) or any(len(s["ops"]) != 1 for s in o["sites"]) for o in ev["obs"])
+        ctx.count(1, key=("A", m["strand"], json.dumps(j["frows"], sort_keys=True)), nontrivial=nontrivial)
+    ctx.parts["A"] = {"tables_from_tlc": len(tables), "executions": sum(len(j["orders"]) for j in jobs), "with_genotype": sum(1 for j in jobs if j["planted"]),
+                      "wall_s": round(time.time() - t0, 1)}
+    sj = next(j for j in jobs if meta[j["id"]]["kind"] == "plan" and j["planted"] and j["planted"]["names"] == ["2", "4"])
+    ctx.sample({"binding": "A", "table": sj["frows"], "planted": sj["planted"], "observed": {"obs": events[sj["id"]]["obs"][:1], "call": events[sj["id"]]["call"]}})
+    gene_rows = {st: gene_event(srcs[st], MC_ORIGIN, views[st], mc_alleles) for st in "+-"}
+    CH = 4000
+    for st in "+-":
+        evs_ = chunks_rows[st]
+        for i in range(0, len(evs_), CH):
+            chunks.append([gene_rows[st]] + evs_[i:i + CH])
+
     # =============================================================== canaries (derived from the events; judged below)
     canary = {}
     cid = 10 ** 7
@@ -712,7 +730,8 @@ def _run_bindings(ctx, rng, quick, pool, out, rgen):
         for x in o["cov"]:
             if x["cov"] in (10, 20) and x["kind"] == "sub":
                 so = next((s_ for s_ in o["sites"] if s_["s"] == x["site"]), None)
-                ri = [i for i, r_ in enumerate(e["rows"]) if abs(r_["pos"] - x["site"]) <= 2]
+                # no other row near the site (the sites around a row the statement does not cover are not compared)
+                ri = [i for i, r_ in enumerate(e["rows"]) if r_["pos"] - 3 <= x["site"] <= r_["pos"] + len(r_["ref"]) + 3]
                 if so is not None and len(ri) == 1 and sum(n for _, n in so["ops"]) == 20:
                     r_ = e["rows"][ri[0]]
                     if (len(r_["ref"]) == 1 and len(r_["alts"]) == 1 and r_["pos"] == x["site"] and x["op"] == f"{r_['ref'][0]}>{r_['alts'][0][0]}"
@@ -825,7 +844,7 @@ def _multi_gene(ctx, rng, quick, pool, tinfo, scratch, meta, jobs_by_id, events,
     gene list (quick) and through gene_db='pharmacoscan' (thorough): the rows of the other genes are other-chromosome /
     outside-the-gene rows for each gene.  The per-gene loads are validated like any other table event."""
     info = {"runs": 0, "genes": 0}
-    jid = jid0 + 500000
+    jid = 1500000
     runs = []
     for build in (["hg19"] if quick else ["hg19", "hg38"]):
         labels = [l for l, t in tinfo.items() if t["gene_db"] and t["build"] == build and t["cat"] and t["name"] not in ("DPYD",)]
